@@ -49,7 +49,9 @@ CHECKS = {
     "C12": dict(level="fault_enumeration", engine="headers", ref="3 C12",
                 text="Every prefix of the journalled Write/Remove sequence of every Clean and Save in the TLC behaviours is "
                      "materialised as a storage image and loaded; the spec's Reload relation (loads, linked from genesis, only "
-                     "ever-accepted headers, work >= last completed save) is the oracle.",
+                     "ever-accepted headers, work >= last completed save) is the oracle. HeaderStore.tla models the two stores of the "
+                     "best chain and the order of the writes: CrashSoundShallow holds for every crash point, CrashSound without the "
+                     "deep-reorganisation exemption yields the trace of known finding F-C12-1.",
                 technique="crash-point enumeration over TLC-generated behaviours with the TLA+ Reload relation as oracle"),
     "C17": dict(level="model_checking", engine="headers", ref="3 C17",
                 text="MarkedExcluded / FallsBack checked by TLC on the Mark family; replay marks every kind of header TLC "
@@ -81,7 +83,9 @@ CHECKS.update({
                 text="ForwardedAtMostOnce, OnePeerPerStep, NeverAfterDelivery, Requestable, OneOutstandingPerWindow, "
                      "OnlyAnnouncersAsked, HeldBackStaysDue checked by TLC on TxManager.tla; every call sequence up to the BFS "
                      "depth plus simulated deeper ones replayed on the real TxManager (replies, processor and saver counts); "
-                     "rounds of concurrent calls recorded from the real TxManager are linearized by TLC (TxManagerLin).",
+                     "rounds of concurrent calls recorded from the real TxManager are linearized by TLC (TxManagerLin); "
+                     "connection-level traces (three verified peers, real BitcoinNodes + NodeManager.RequestTxs sharing one "
+                     "TxManager) are validated against the same spec.",
                 technique="TLA+ model checking (TLC) + behaviour replay + linearization of concurrent traces by TLC",
                 note="Trusted: TLC. One Tick = VerifAgeRequests(request timeout); real time between calls is microseconds "
                      "against a one hour timeout. TxManager.Clean is outside the property."),
@@ -158,7 +162,8 @@ CHECKS.update({
                 text="NoSendBlocked, CompleteOnlyAfterOk and the temporal property Triggered ~> Run returned (weak fairness, no "
                      "timeouts) checked by TLC on BlockDownload.tla over every interleaving of Run, the node's handleBlock, "
                      "Cancel, Stop and interrupt; AtMostOneTerminal, CompleteOnlyAfterOk, ConcurrencyBound, ListDrains on "
-                     "BlockManage.tla. Every behaviour of BlockDownloadGen is replayed on a real BlockDownloader; the node-side "
+                     "BlockManage.tla. Every behaviour of BlockDownloadGen is replayed on a real BlockDownloader, at quiescence granularity and again without waiting for "
+                     "quiescence (racing events, late start of Run; judged by RunReturns / NoSendBlocked); the node-side "
                      "window runs on the real BitcoinNode over net.Pipe with seed-chosen schedules (incl. blocks larger than the 1000-slot "
                      "hand-over channel with a held processor); traces of the real "
                      "BlockManager with a scripted block source are validated by TLC against BlockManage.tla.",
